@@ -145,3 +145,71 @@ def runProgram (pf vf : Nat) (filename : Bytes) (text : Bytes) : List BCmd → O
     | none => none
 
 end Vore
+
+namespace Vore
+
+/-! ## files: `search` with a replace mode over an abstract file system (engine.go, search.go:100-113) -/
+
+/-- `engine.ReplaceMode` -/
+inductive Mode where
+  | overwrite | confirm | new | nothing
+deriving Repr, DecidableEq, Inhabited
+
+/-- path ↦ content; absent = no such file -/
+abbrev FileSys := List (Bytes × Bytes)
+
+def FileSys.get (fs : FileSys) (p : Bytes) : Option Bytes := (fs.find? (·.1 == p)).map (·.2)
+
+/-- create or truncate-and-write -/
+def FileSys.put (fs : FileSys) (p : Bytes) (content : Bytes) : FileSys := (p, content) :: fs.filter (fun kv => !(kv.1 == p))
+
+def voredSuffix : Bytes := ".vored".toUTF8.toList
+
+/-- `search(command, filename, reader, mode)` for one regular file whose content is `text`:
+the matches and the file system afterwards.  Find and set commands never open a writer.
+`CONFIRM` has no case in the Go switch: the writer stays nil and the first write panics. -/
+def searchFile (pf vf : Nat) (mode : Mode) (fs : FileSys) (filename text : Bytes) (c : BCmd) :
+    Option (Res (List Match × FileSys)) :=
+  match c with
+  | .replace .. =>
+    match runCmd pf vf filename text c with
+    | some (.ok ms) =>
+      match mode with
+      | .nothing => some (.ok (ms, fs))
+      | .new => some (.ok (ms, fs.put (filename ++ voredSuffix) (writtenText text ms)))
+      | .overwrite => some (.ok (ms, fs.put filename (writtenText text ms)))
+      | .confirm => some (.panic "nil pointer dereference (no writer for CONFIRM)")
+    | some (.panic t) => some (.panic t)
+    | some .pfuel => some .pfuel
+    | none => none
+  | _ =>
+    match runCmd pf vf filename text c with
+    | some (.ok ms) => some (.ok (ms, fs))
+    | some (.panic t) => some (.panic t)
+    | some .pfuel => some .pfuel
+    | none => none
+
+end Vore
+
+namespace Vore
+
+/-- `RunFiles(bytecode, [filename], mode, false)` for one regular file: every command opens the
+file afresh (so a later command sees what an earlier OVERWRITE left).  A missing file panics. -/
+def runFiles (pf vf : Nat) (mode : Mode) (filename : Bytes) : List BCmd → FileSys → Option (Res (List Match × FileSys))
+  | [], fs => some (.ok ([], fs))
+  | c :: cs, fs =>
+    match fs.get filename with
+    | none => some (.panic "stat: no such file")
+    | some text =>
+      match searchFile pf vf mode fs filename text c with
+      | some (.ok (ms, fs1)) =>
+        match runFiles pf vf mode filename cs fs1 with
+        | some (.ok (rest, fs2)) => some (.ok (ms ++ rest, fs2))
+        | some (.panic t) => some (.panic t)
+        | some .pfuel => some .pfuel
+        | none => none
+      | some (.panic t) => some (.panic t)
+      | some .pfuel => some .pfuel
+      | none => none
+
+end Vore
